@@ -91,41 +91,47 @@ pub open spec fn rc243_chroot_site<'a, E>(g: DiGraph<Node<'a>, E>, chroot: Tid, 
     rc_blkend(g.node_weight(i)) is Some && rc_blk_calls(*rc_blkend(g.node_weight(i))->Some_0.0, chroot)
 }
 
-/// node `a` has exactly one outgoing edge
-pub open spec fn rc_one_out_edge<N, E>(g: DiGraph<N, E>, a: NodeIndex) -> bool {
-    &&& exists |e: int| rc_out_edge(g, a, e)
-    &&& forall |e1: int, e2: int| rc_out_edge(g, a, e1) && rc_out_edge(g, a, e2) ==> e1 == e2
+/// edge `e` is "the return edge of the call at `callsite`": it leaves node `a`, is an ExternCallStub, and its jump is the
+/// call site (the CFG builder gives a returning call to an extern symbol exactly this edge, to the block the call returns to)
+pub open spec fn rc243_ret_edge<'a, N>(g: DiGraph<N, Edge<'a>>, a: NodeIndex, callsite: Tid, e: int) -> bool {
+    &&& rc_out_edge(g, a, e)
+    &&& rc_stub_jmp(g.edge_weight(e)) is Some
+    &&& rc_stub_jmp(g.edge_weight(e))->Some_0.tid == callsite
 }
 
-/// the node "after" the call: the target of the (one) outgoing edge of the block-end node
-pub open spec fn rc_after<N, E>(g: DiGraph<N, E>, a: NodeIndex) -> NodeIndex {
-    g.edge_seq()[choose |e: int| rc_out_edge(g, a, e)].1
+/// `ret` is a return site of the call: the target of SOME return edge (a built CFG has at most one; in an arbitrary graph
+/// the code keeps the last one in petgraph's edge order -- not specified here), None iff there is no return edge ("the call
+/// does not return")
+pub open spec fn rc243_ret_ok<'a, N>(g: DiGraph<N, Edge<'a>>, a: NodeIndex, callsite: Tid, ret: Option<NodeIndex>) -> bool {
+    match ret {
+        None => forall |e: int| !rc243_ret_edge(g, a, callsite, e),
+        Some(r) => exists |e: int| #[trigger] rc243_ret_edge(g, a, callsite, e) && r == g.edge_seq()[e].1,
+    }
 }
 
-/// PRECONDITION of cwe_243::check_cwe (no panic): when chroot and chdir are both imported, the end node of every block that
-/// calls chroot has exactly one outgoing edge.  (A fact about the CFG builder -- property C08 -- and the program: the builder
-/// gives the end node of a block whose only jump is a returning direct call to an extern symbol exactly one edge, the
-/// ExternCallStub to the return block.)
-pub open spec fn rc243_pre<'a>(g: DiGraph<Node<'a>, Edge<'a>>, m: Map<Tid, ExternSymbol>) -> bool {
-    rc_find_symbol(m, "chroot"@) is Some && rc_find_symbol(m, "chdir"@) is Some ==>
-        forall |i: int| 0 <= i < g.node_count_spec() && rc_blkend(#[trigger] g.node_weight(i)) is Some
-            && rc_blk_calls(*rc_blkend(g.node_weight(i))->Some_0.0, rc_find_symbol(m, "chroot"@)->Some_0)
-            ==> rc_one_out_edge(g, NodeIndex { i: i as usize })
+/// THE PROPERTY'S DECISION for a chroot call of function `sub` with return site `ret`, chdir imported: report iff no chdir
+/// call is reachable after it (from the return site, intraprocedurally, without passing another chroot call; nothing is
+/// reachable after a call that does not return) and the function does not call both chdir and a privilege-dropping function
+pub open spec fn rc243_decision<'a, N>(g: DiGraph<N, Edge<'a>>, m: Map<Tid, ExternSymbol>, names: Seq<String>, sub: Term<Sub>,
+                                       chroot: Tid, chdir: Tid, ret: Option<NodeIndex>) -> bool {
+    &&& !(ret is Some && rc_sink_reachable(g, ret->Some_0, chroot, chdir))
+    &&& !(rc_sub_calls(sub, chdir) && rc243_sub_drops(sub, m, names))
 }
 
-/// THE PROPERTY'S DECISION for node `i`: it is a chroot call, and (chdir is not imported at all, or no chdir call is
-/// reachable after it -- intraprocedurally, without passing another chroot call -- and its function does not call both
-/// chdir and a privilege-dropping function)
-pub open spec fn rc243_reports<'a>(g: DiGraph<Node<'a>, Edge<'a>>, m: Map<Tid, ExternSymbol>, names: Seq<String>, i: int) -> bool {
+/// `b` is a correct verdict for node `i` (true = one warning, false = none): no warning unless the node is a chroot call;
+/// a warning when chdir is not imported at all; otherwise the decision above for SOME return site of the call
+pub open spec fn rc243_verdict<'a>(g: DiGraph<Node<'a>, Edge<'a>>, m: Map<Tid, ExternSymbol>, names: Seq<String>, i: int, b: bool) -> bool {
     let chroot = rc_find_symbol(m, "chroot"@);
     let chdir = rc_find_symbol(m, "chdir"@);
-    &&& chroot is Some
-    &&& rc243_chroot_site(g, chroot->Some_0, i)
-    &&& (chdir is None || {
-            &&& !rc_sink_reachable(g, rc_after(g, NodeIndex { i: i as usize }), chroot->Some_0, chdir->Some_0)
-            &&& !(rc_sub_calls(*rc_blkend(g.node_weight(i))->Some_0.1, chdir->Some_0)
-                  && rc243_sub_drops(*rc_blkend(g.node_weight(i))->Some_0.1, m, names))
-        })
+    if !(chroot is Some && rc243_chroot_site(g, chroot->Some_0, i)) {
+        !b
+    } else if chdir is None {
+        b
+    } else {
+        exists |ret: Option<NodeIndex>|
+            #[trigger] rc243_ret_ok(g, NodeIndex { i: i as usize }, rc_callsite(*rc_blkend(g.node_weight(i))->Some_0.0, chroot->Some_0), ret)
+            && b == rc243_decision(g, m, names, *rc_blkend(g.node_weight(i))->Some_0.1, chroot->Some_0, chdir->Some_0, ret)
+    }
 }
 
 /// the warning for node `i`: names the function and the first jump of the block that calls chroot
@@ -134,14 +140,24 @@ pub open spec fn rc243_warning_at<'a, E>(g: DiGraph<Node<'a>, E>, m: Map<Tid, Ex
                   rc_callsite(*rc_blkend(g.node_weight(i))->Some_0.0, rc_find_symbol(m, "chroot"@)->Some_0))
 }
 
-/// the warnings for the first `n` nodes, in node order
-pub open spec fn rc243_warnings<'a>(g: DiGraph<Node<'a>, Edge<'a>>, m: Map<Tid, ExternSymbol>, names: Seq<String>, n: int) -> Seq<CweWarning>
+/// `w` is a correct list of warnings for the first `n` nodes, in node order: one warning per node with verdict true, none
+/// for a node with verdict false
+pub open spec fn rc243_list<'a>(g: DiGraph<Node<'a>, Edge<'a>>, m: Map<Tid, ExternSymbol>, names: Seq<String>, n: int, w: Seq<CweWarning>) -> bool
     decreases n
 {
     if n <= 0 {
-        Seq::empty()
+        w.len() == 0
     } else {
-        let prev = rc243_warnings(g, m, names, n - 1);
-        if rc243_reports(g, m, names, n - 1) { prev.push(rc243_warning_at(g, m, n - 1)) } else { prev }
+        ||| (rc243_verdict(g, m, names, n - 1, true) && w.len() > 0 && w.last() == rc243_warning_at(g, m, n - 1)
+             && rc243_list(g, m, names, n - 1, w.drop_last()))
+        ||| (rc243_verdict(g, m, names, n - 1, false) && rc243_list(g, m, names, n - 1, w))
+    }
+}
+
+/// state of the search for the return edge among the first `idx` outgoing edges of the node
+pub open spec fn rc243_ret_upto<'a, N>(g: DiGraph<N, Edge<'a>>, a: NodeIndex, callsite: Tid, refs: Seq<RcEdgeReference<'a, Edge<'a>>>, idx: int, cur: Option<NodeIndex>) -> bool {
+    match cur {
+        None => forall |k: int| 0 <= k < idx && k < refs.len() ==> !rc243_ret_edge(g, a, callsite, (#[trigger] refs[k]).e.i as int),
+        Some(r) => exists |k: int| 0 <= k < idx && k < refs.len() && rc243_ret_edge(g, a, callsite, (#[trigger] refs[k]).e.i as int) && r == refs[k].tgt,
     }
 }
